@@ -71,8 +71,27 @@ def subst(tok):
     return SH_STRING if tok == "SH" else tok
 
 
-def cli_step(v):
-    run = dict(via="cli", base="b", args=[subst(t) for t in v["argv"]], timeout_ms=30000)
+# the spellings clap derives from main.rs for each option of Cli.tla (the specification works on the short names)
+LONG = {"-q": "--quiet", "-v": "--verbose", "-r": "--recursive", "-n": "--no-trailing-newline", "-N": "--needed", "-j": "--threads", "-s": "--shell"}
+
+
+def spell(argv, rng):
+    """the vector as typed: short options, or (seeded) their long spellings, `--threads=3` / `-j3` for option + value"""
+    out, i = [], 0
+    while i < len(argv):
+        t = argv[i]
+        nxt = argv[i + 1] if i + 1 < len(argv) else None
+        if rng is not None and t in ("-j", "-s") and nxt is not None and not nxt.startswith("-") and rng.random() < 0.25:
+            out.append(rng.choice([LONG[t] + "=" + subst(nxt), t + subst(nxt)]))
+            i += 2
+            continue
+        out.append(LONG[t] if (rng is not None and t in LONG and rng.random() < 0.3) else subst(t))
+        i += 1
+    return out
+
+
+def cli_step(v, rng=None):
+    run = dict(via="cli", base="b", args=spell(v["argv"], rng), timeout_ms=30000)
     if v["env"] == "empty":
         run["env"] = dict(TXTPP_FILE="")
     elif v["env"] == "set":
@@ -103,6 +122,10 @@ def attribute(v, a, b):
     props |= {dict(clean="C07", verify="C06", needed="C09").get(mode)} - {None}
     if a["verdict"] != b["verdict"]:
         props.add("C04")
+        # a verdict that only differs because an option did not arrive belongs to that option's property as well
+        for t, p in (("-n", "C13"), ("-s", "C17"), ("-N", "C09"), ("-r", "C11")):
+            if t in v["argv"]:
+                props.add(p)
     for p in set(a["files"]) | set(b["files"]):
         fa, fb = a["files"].get(p), b["files"].get(p)
         if fa == fb:
@@ -159,7 +182,7 @@ def cli_layer(rep, prop, wd):
             names = [rng.choice(["built", "stale"])]
         for tn in names:
             files = SOURCES + TREES[tn]
-            cases.append(dict(id=f"c{vi}{tn}", files=files, sentinel=True, steps=[cli_step(v)]))
+            cases.append(dict(id=f"c{vi}{tn}", files=files, sentinel=True, steps=[cli_step(v, rng if len(v["argv"]) > 1 and tn != "fresh" else None)]))
             meta.append((v, tn, "cli"))
             if v["outcome"] == "run":
                 cases.append(dict(id=f"l{vi}{tn}", files=files, sentinel=True, steps=[lib_step(v["config"])]))
@@ -171,7 +194,7 @@ def cli_layer(rep, prop, wd):
     while i < len(cases):
         v, tn, kind = meta[i]
         rc = res[i]
-        ctx = f"[txtpp {' '.join(v['argv'])} | TXTPP_FILE {v['env']} | tree {tn}]"
+        ctx = f"[txtpp {' '.join(cases[i]['steps'][0]['run']['args'])} | TXTPP_FILE {v['env']} | tree {tn}]"
         key = f"cli:{v['env']}|{' '.join(v['argv'])}|{tn}"
         if rc.get("skipped"):
             i += 2 if v["outcome"] == "run" else 1
